@@ -102,7 +102,8 @@ def run(F, R, tier):
         E = Evaluator(F, inline=keep)
         v, fr = E.function_value(f)
         s = show(v)
-        want = "(%s_non_tan_beta_resummed(model) * tan_beta_cor(model))" % nm.split("::")[-1]
+        pn0 = f["params"][0]["name"]
+        want = "(%s_non_tan_beta_resummed(%s) * tan_beta_cor(%s))" % (nm.split("::")[-1], pn0, pn0)
         R.check("D3", s == want, nm.split("::")[-1] + " = " + s[:100], F.loc(f), "expected " + want, key="D3|" + nm)
 
     # ---------------- D1 dispatch ------------------------------------------------------
@@ -122,7 +123,7 @@ def run(F, R, tier):
                 r = subst_fold(v, mp)
                 got = sorted(show(a) for a in _addends(r) if a != ("num", Fraction(0)))
                 suffix = "" if (model == "THDM" or tanb) else "_non_tan_beta_resummed"
-                want = sorted(["calculate_amu_%dloop%s(model)" % (k, suffix) for k in range(1, lo + 1)])
+                want = sorted(["calculate_amu_%dloop%s(%s)" % (k, suffix, f["params"][0]["name"]) for k in range(1, lo + 1)])
                 inst = "calculate_amu<%s>(resum=%s, order=%d) = %s" % (model, tanb, lo, " + ".join(got) or "0")
                 R.check("D1", got == want, inst, F.loc(f), "documented: %s" % (" + ".join(want) or "0"),
                         key="D1|%s|%s|%d" % (model, tanb, lo))
@@ -133,7 +134,7 @@ def run(F, R, tier):
         opt = ("sym", f["params"][1]["name"])
         for lo in (0, 1, 2):
             r = subst_fold(v, {("field", opt, "loop_order"): num(lo)})
-            want = "calculate_uncertainty_amu_%dloop(model)" % lo
+            want = "calculate_uncertainty_amu_%dloop(%s)" % (lo, f["params"][0]["name"])
             R.check("D1", show(r) == want, "calculate_uncertainty<%s>(order=%d) = %s" % (model, lo, show(r)[:80]), F.loc(f),
                     "documented: " + want, key="D1|unc|%s|%d" % (model, lo))
 
